@@ -16,11 +16,13 @@ import (
 // points. It is self-contained: public key, what is verified (uid+message or a
 // digest) and the candidate as bytes and/or as a pair of integers.
 type candCase struct {
+	Curve  string // "" = the SM2 curve; "P-224", "P-256", "P-384", "P-521" = keys the library routes to sm2_legacy.go
 	Kind   string // candidate family (histogram label)
 	Reenc  bool   // a re-encoding / structural variation of a pair (r,s) that is valid for (pub, e)
 	Expect int    // generator's a-priori knowledge of the reference verdict: 0 none, 1 accept, 2 reject (a mismatch is a harness error)
 
 	PubX, PubY h.B
+	PubNil     int // 1: X is nil, 2: Y is nil, 3: both (non-SM2 curves, digest mode only)
 
 	DigestMode bool
 	Digest     h.B // digest mode: handed to the digest-based entry points as is
@@ -38,7 +40,10 @@ type candCase struct {
 }
 
 func (b *base) cand(kind string) candCase {
-	c := candCase{Kind: kind, PubX: ref.Bytes32(b.Pub.X), PubY: ref.Bytes32(b.Pub.Y)}
+	c := candCase{Kind: kind, PubX: b.fixed(b.Pub.X), PubY: b.fixed(b.Pub.Y)}
+	if b.G != nil {
+		c.Curve = b.G.name
+	}
 	if b.msgMode() {
 		c.UIDLen, c.UIDSeed, c.MsgLen, c.MsgSeed = b.UIDLen, b.UIDSeed, b.MsgLen, b.MsgSeed
 	} else {
@@ -76,23 +81,46 @@ func (c candCase) reenc() candCase { c.Reenc = true; return c }
 
 func checkCand(c candCase, rec *h.Rec) error {
 	rec.Label(c.Kind)
-	if len(c.PubX) > 32 || len(c.PubY) > 32 {
-		h.HarnessError("candidate public key coordinate longer than 32 bytes")
+	g := curveByName(c.Curve) // nil: the SM2 curve
+	width, model := 32, ref.SM2
+	if g != nil {
+		rec.Label("curve:" + g.name)
+		width, model = g.byteLen, g.c
+	}
+	if len(c.PubX) > width || len(c.PubY) > width {
+		h.HarnessError("candidate public key coordinate longer than %d bytes", width)
 	}
 	pub := pointOf(c.PubX, c.PubY)
-	pubOK := ref.SM2.OnCurve(pub)
+	pubOK := model.OnCurve(pub)
+	if c.PubNil != 0 {
+		pubOK = false
+		if g == nil || !c.DigestMode {
+			h.HarnessError("nil public key coordinate outside its domain (non-SM2 curve, digest mode)")
+		}
+	}
 	if !pubOK {
 		rec.Label("pub-invalid")
 	}
 	v := &vctx{pub: libPub(pub), args: newArgs(c.Args, rec)}
+	if g != nil {
+		v.pub.Curve = g.ec
+	}
+	if c.PubNil&1 != 0 {
+		v.pub.X = nil
+		rec.Label("pub-nil-coordinate")
+	}
+	if c.PubNil&2 != 0 {
+		v.pub.Y = nil
+		rec.Label("pub-nil-coordinate")
+	}
 	refused := false
 	if c.DigestMode {
-		if len(c.Digest) < 32 {
-			h.HarnessError("digest shorter than 32 bytes generated (conversion to e is not documented)")
+		if len(c.Digest) < min(32, width) {
+			h.HarnessError("digest shorter than 32 bytes / the order generated (conversion to e is not documented)")
 		}
 		v.e = c.Digest
 		if len(c.Digest) != 32 {
-			rec.Label("digest-len>32")
+			rec.Label("digest-len!=32")
 		}
 	} else {
 		if !pubOK {
@@ -105,7 +133,11 @@ func checkCand(c candCase, rec *h.Rec) error {
 			refused = true // no ZA exists for such an id; the library documents an error
 			rec.Label("uid>8191")
 		} else {
-			v.e = ref.SM2Digest(effUID(v.uid), pub, v.msg)
+			if g != nil {
+				v.e = g.digest(effUID(v.uid), pub, v.msg)
+			} else {
+				v.e = ref.SM2Digest(effUID(v.uid), pub, v.msg)
+			}
 		}
 	}
 	var eInt []byte
@@ -114,14 +146,19 @@ func checkCand(c candCase, rec *h.Rec) error {
 	}
 	memo := map[string]bool{}
 	want := func(r, s *big.Int) bool {
-		if refused {
+		if refused || c.PubNil != 0 {
 			return false
 		}
 		k := r.Text(16) + "/" + s.Text(16)
 		if w, ok := memo[k]; ok {
 			return w
 		}
-		w := ref.SM2VerifyRS(pub, eInt, r, s)
+		var w bool
+		if g != nil {
+			w = g.verifyRS(pub, g.eOf(v.e), r, s)
+		} else {
+			w = ref.SM2VerifyRS(pub, eInt, r, s)
+		}
 		memo[k] = w
 		return w
 	}
@@ -319,13 +356,13 @@ func famReenc(b *base, emit func(candCase)) {
 	}
 	e("int-leading-zero-both", tlv(0x30, cat(tlv(2, cat([]byte{0}, rc)), tlv(2, cat([]byte{0}, sc)))))
 	// fixed-width 32/33-byte integers (what a naive encoder of r.FillBytes would emit)
-	if fr := ref.Bytes32(b.R); len(fr) != len(rc) {
+	if fr := b.fixed(b.R); len(fr) != len(rc) {
 		e("int-fixed-width", tlv(0x30, cat(tlv(2, fr), si)))
 	}
-	if fs := ref.Bytes32(b.S); len(fs) != len(sc) {
+	if fs := b.fixed(b.S); len(fs) != len(sc) {
 		e("int-fixed-width", tlv(0x30, cat(ri, tlv(2, fs))))
 	}
-	e("int-fixed-width", tlv(0x30, cat(tlv(2, cat([]byte{0}, ref.Bytes32(b.R))), tlv(2, cat([]byte{0}, ref.Bytes32(b.S))))))
+	e("int-fixed-width", tlv(0x30, cat(tlv(2, cat([]byte{0}, b.fixed(b.R))), tlv(2, cat([]byte{0}, b.fixed(b.S))))))
 	// negative integers: sign octet dropped, two's complement of -r, 0xff padding
 	if rc[0] == 0 && len(rc) > 1 {
 		e("int-negative-unpadded-r", tlv(0x30, cat(tlv(2, rc[1:]), si)))
@@ -336,7 +373,7 @@ func famReenc(b *base, emit func(candCase)) {
 	e("int-negative", derSig(new(big.Int).Neg(b.R), b.S))
 	e("int-negative", derSig(b.R, new(big.Int).Neg(b.S)))
 	e("int-negative", derSig(new(big.Int).Neg(b.R), new(big.Int).Neg(b.S)))
-	e("int-negative", derSig(sub(b.R, two256), b.S)) // r - 2^256: same low 256 bits
+	e("int-negative", derSig(sub(b.R, b.two()), b.S)) // r - 2^w: same low bits
 	e("int-negative", tlv(0x30, cat(tlv(2, cat([]byte{0xff}, rc)), si)))
 	// trailing bytes inside the SEQUENCE
 	for _, t := range [][]byte{{0}, {0, 0}, {2, 1, 0}, {5, 0}, {2, 0}, {0xff}} {
@@ -385,7 +422,7 @@ func famReenc(b *base, emit func(candCase)) {
 	e("int-empty", tlv(0x30, cat([]byte{2, 0}, si)))
 	e("int-empty", tlv(0x30, cat(ri, []byte{2, 0})))
 	// the plain r||s format of GM/T 0009 is not an ASN.1 signature
-	e("raw-rs", cat(ref.Bytes32(b.R), ref.Bytes32(b.S)))
+	e("raw-rs", cat(b.fixed(b.R), b.fixed(b.S)))
 	// r and s exchanged (a pair like any other; the reference decides)
 	if b.R.Cmp(b.S) != 0 {
 		emit(b.cand("swapped").withRS(b.S, b.R))
@@ -396,6 +433,7 @@ func famReenc(b *base, emit func(candCase)) {
 // by values congruent to the valid ones.
 func famInts(b *base, emit func(candCase)) {
 	r, s := b.R, b.S
+	bigN, bigP, two256 := b.n(), b.p(), b.two() // of the curve the base lives on
 	max := sub(two256, one)
 	repl := func(name string, v *big.Int) {
 		emit(b.cand("r:="+name).withRS(v, s))
@@ -406,8 +444,8 @@ func famInts(b *base, emit func(candCase)) {
 	repl("n", bigN)
 	repl("n-1", sub(bigN, one))
 	repl("n+1", add(bigN, one))
-	repl("2^256-1", max)
-	repl("2^256", two256)
+	repl("2^w-1", max)
+	repl("2^w", two256)
 	repl("p", bigP)
 	emit(b.cand("r:=n+r").withRS(add(bigN, r), s).expect(false))
 	emit(b.cand("s:=n+s").withRS(r, add(bigN, s)).expect(false))
@@ -425,7 +463,7 @@ func famInts(b *base, emit func(candCase)) {
 	emit(b.cand("s:=s-1").withRS(r, sub(s, one)))
 	emit(b.cand("r:=r*256").withRS(new(big.Int).Lsh(r, 8), s).expect(false))
 	emit(b.cand("s:=s*256").withRS(r, new(big.Int).Lsh(s, 8)).expect(false))
-	emit(b.cand("r:=r+2^256").withRS(add(r, two256), s).expect(false))
+	emit(b.cand("r:=r+2^w").withRS(add(r, two256), s).expect(false))
 	emit(b.cand("s:=r").withRS(r, r))
 	emit(b.cand("r:=s").withRS(s, s))
 	emit(b.cand("both:=0").withRS(bi(0), bi(0)).expect(false))
@@ -472,8 +510,8 @@ func famFlavours(b *base, emit func(candCase)) {
 
 func famRandomRS(b *base, seed uint64, count int, emit func(candCase)) {
 	for i := 0; i < count; i++ {
-		r := nonceFromSeed(gen.Mix(seed, uint64(i), 1))
-		s := nonceFromSeed(gen.Mix(seed, uint64(i), 2))
+		r := b.nonce(gen.Mix(seed, uint64(i), 1))
+		s := b.nonce(gen.Mix(seed, uint64(i), 2))
 		switch i % 3 {
 		case 0:
 			emit(b.cand("random-rs").withRS(r, s))
